@@ -32,9 +32,17 @@ Definition Reach (pre : list label) (ss : list state) : Prop :=
 Lemma reach_init : Reach [] [init].
 Proof. intros s [<-|[]]. exists []. split; reflexivity. Qed.
 
+Lemma add_new_in x ns : forall acc, In x (add_new acc ns) -> In x acc \/ In x ns.
+Proof.
+  induction ns as [|n r IH]; intros acc H; simpl in *; auto.
+  destruct (existsb (state_eqb n) acc).
+  - destruct (IH _ H); auto.
+  - destruct (IH _ H) as [H1|H1]; auto. apply in_app_or in H1 as [H1|[H1|[]]]; auto.
+Qed.
+
 Lemma tau1_sound pre ss : Reach pre ss -> Reach pre (tau1 ss).
 Proof.
-  intros HR s Hs. unfold tau1 in Hs. apply dedup_in in Hs. apply in_app_or in Hs as [Hs|Hs]; auto.
+  intros HR s Hs. unfold tau1 in Hs. apply add_new_in in Hs as [Hs|Hs]; auto.
   apply in_flat_map in Hs as (s0 & Hs0 & Hs).
   apply filter_map_in in Hs as (l & Hl & Hstep).
   destruct (HR s0 Hs0) as (full & Hrun & Hobs).
